@@ -227,6 +227,25 @@ Theorem C05_perturb_then_correct_3d_any_error :
 Proof. exact perturb_then_correct_3d_any_error. Qed.
 Print Assumptions C05_perturb_then_correct_3d_any_error.
 
+(** (C18 clause) d/de|0 compute_state_difference(perturb_pva(pva, e E), pva) = E, all 9 components, every E and every attitude (the wrapped angle differences vanish at e = 0, so no attitude hypothesis is needed) *)
+Theorem C05_state_diff_recovers_perturbation :
+  forall lat lon alt VN VE VD roll pitch heading E0 E1 E2 E3 E4 E5 E6 E7 E8 : R,
+       -90 < lat < 90 ->
+       -1000000 <= alt ->
+       let D :=
+         fun d : R -> R -> R -> R -> R -> R -> R -> R -> R -> R -> R -> R -> R -> R -> R -> R -> R -> R -> R
+         => diff_of_perturbed d lat lon alt VN VE VD roll pitch heading E0 E1 E2 E3 E4 E5 E6 E7 E8 in
+       is_derive (D state_diff_north) 0 E0 /\
+       is_derive (D state_diff_east) 0 E1 /\
+       is_derive (D state_diff_down) 0 E2 /\
+       is_derive (D state_diff_VN) 0 E3 /\
+       is_derive (D state_diff_VE) 0 E4 /\
+       is_derive (D state_diff_VD) 0 E5 /\
+       is_derive (D state_diff_roll) 0 E6 /\
+       is_derive (D state_diff_pitch) 0 E7 /\ is_derive (D state_diff_heading) 0 E8.
+Proof. exact state_diff_recovers_perturbation. Qed.
+Print Assumptions C05_state_diff_recovers_perturbation.
+
 (** non-vacuity: the hypotheses are satisfiable on a concrete, non-trivial state *)
 Example C05_domain_nonempty :
   -90 < 48 < 90 /\ -1000000 <= 350 /\ -180 < 12 < 180 /\ -90 < -8 < 90 /\ -180 < 130 < 180 /\
